@@ -539,4 +539,176 @@ Proof.
     cbn in L'. apply alookup_aremove_some in L' as [L' _]. congruence.
 Qed.
 
+
+(* ---------- what the two bcrypt hypotheses buy ---------- *)
+(* every stored hash is the empty hash or the hash of the password of the last
+   successful PUT that carried one *)
+Definition hash_origin (s : sstate') : Prop :=
+  forall n u, alookup n (users s) = Some u -> u_hash u = empty_hash \/ exists p, u_hash u = hash p.
+
+Lemma get_session_users s parsed c fp s1 r fp1 :
+  get_session verify s parsed c fp = (s1, r, fp1) ->
+  users s1 = users s /\ services s1 = services s /\ registry s1 = registry s /\ shortcuts s1 = shortcuts s /\ clock s1 = clock s.
+Proof.
+  intros G. destruct r as [rep|[se ck]].
+  - apply get_session_inl in G as [-> _]. auto.
+  - apply get_session_inr in G as [(_ & _ & u & _ & _ & _ & _ & -> & _)|(_ & id & _ & _ & _ & _ & -> & _)]; cbn; auto.
+Qed.
+
+Lemma step_hash_origin s o fp s' rs fp' : hash_origin s -> step' s o fp = (s', rs, fp') -> hash_origin s'.
+Proof.
+  intros I E.
+  assert (forall parsed c fpa s1 r fp1, get_session verify s parsed c fpa = (s1, r, fp1) -> hash_origin s1) as KG.
+  { intros parsed c fpa s1 r fp1 G n u L. apply get_session_users in G as (G & _). rewrite G in L. now apply (I n). }
+  destruct o as [n pw pr|n|n| |id md|id|n sp|n|c|rq c|n c|id|id|dt|]; cbn [step] in E.
+  - unfold put_user in E.
+    assert (forall h fpa, (h = empty_hash \/ exists p, h = hash p) ->
+              (let '(ok, fp2) := store_mut fpa in
+               if ok then (set_users s (ainsert n {| u_name := n; u_hash := h; u_prof := pr |} (users s)), [@rnocontent H], fp2)
+               else (s, [rerr 500], fp2)) = (s', rs, fp') -> hash_origin s') as K.
+    { intros h fpa Hh. destruct (store_mut fpa) as [[|] fp2]; intros X; injection X as <- <- <-; [|exact I].
+      intros k u X. cbn in X. apply alookup_ainsert_some in X as [[-> ->]|[_ X]]; [exact Hh|now apply (I k)]. }
+    destruct pw as [p|]; [apply (K (hash p) fp); [right; eauto|exact E]|].
+    destruct (store_get (users s) n fp) as [[old| |] fp1] eqn:G.
+    + apply (K (u_hash old) fp1); [|exact E]. apply store_get_ok in G as (L & _). now apply (I n).
+    + apply (K empty_hash fp1); [now left|exact E].
+    + injection E as <- <- <-. exact I.
+  - unfold del_user in E. destruct (store_mut fp) as [[|] fp1]; injection E as <- <- <-; [|exact I].
+    intros k u X. cbn in X. apply alookup_aremove_some in X as [X _]. now apply (I k).
+  - unfold get_user in E. repeat dmh E; injection E as <- <- <-; exact I.
+  - unfold list_users in E. repeat dmh E; injection E as <- <- <-; exact I.
+  - unfold put_service in E. repeat dmh E; injection E as <- <- <-; exact I.
+  - unfold del_service in E. repeat dmh E; injection E as <- <- <-; exact I.
+  - unfold put_shortcut in E. repeat dmh E; injection E as <- <- <-; exact I.
+  - unfold del_shortcut in E. repeat dmh E; injection E as <- <- <-; exact I.
+  - unfold login in E. destruct (get_session verify s true c fp) as [[s1 r] fp1] eqn:G.
+    assert (s' = s1) as -> by (destruct r as [rep|[sx ck]]; now injection E as <- <- <-). eapply KG; eassumption.
+  - unfold sso in E. destruct (alookup (rq_issuer rq) (registry s)) as [md|]; [|injection E as <- <- <-; exact I].
+    destruct (acs_select md rq); [|injection E as <- <- <-; exact I].
+    destruct (get_session verify s true c fp) as [[s1 r] fp1] eqn:G.
+    assert (s' = s1) as -> by (destruct r as [rep|[sx ck]]; now injection E as <- <- <-). eapply KG; eassumption.
+  - unfold launch in E. destruct (store_get (shortcuts s) n fp) as [[sp| |] fp1]; try (injection E as <- <- <-; exact I).
+    destruct (get_session verify s false c fp1) as [[s1 r] fp2] eqn:G.
+    assert (s' = s1) as -> by (destruct r as [rep|[sx ck]]; [now injection E as <- <- <-|repeat dmh E; now injection E as <- <- <-]).
+    eapply KG; eassumption.
+  - unfold get_sess in E. repeat dmh E; injection E as <- <- <-; exact I.
+  - unfold del_session in E. repeat dmh E; injection E as <- <- <-; exact I.
+  - injection E as <- <- <-. exact I.
+  - injection E as <- <- <-. exact I.
+Qed.
+
+Lemma run_hash_origin s h fp : hash_origin s -> hash_origin (fst (run' s h fp)).
+Proof.
+  revert s fp; induction h as [|o h IH]; intros s fp I; [exact I|].
+  rewrite run_step. destruct (step' s o fp) as [[s' rs] fp'] eqn:E. apply IH. eapply step_hash_origin; eassumption.
+Qed.
+
+(* "presented the user's correct password" means exactly: the password from
+   which the stored hash was made; a user stored without a password has none *)
+Theorem password_exact now h fp n u pw :
+  alookup n (users (fst (run' (init_state H now) h fp))) = Some u ->
+  (verify (u_hash u) pw = true <-> u_hash u = hash pw).
+Proof.
+  intros L. assert (hash_origin (fst (run' (init_state H now) h fp))) as O.
+  { apply run_hash_origin. intros k x X. discriminate. }
+  destruct (O n u L) as [E|[p E]]; rewrite E.
+  - rewrite verify_empty. split; [discriminate|]. intros X. rewrite <- (verify_empty pw), X. now apply verify_hash.
+  - split; [intros V; apply verify_hash in V; now subst|]. intros X. rewrite X. now apply verify_hash.
+Qed.
+
+(* ---------- boolean monitor ---------- *)
+Lemma authenticated_okb s o a : authenticated s o a -> auth_okb verify s o a = true.
+Proof.
+  intros (parsed & c & Co & [(-> & N & u & Lu & V & A1 & A2 & A3)|(P & id & se & Ck & Ls & X & Hlog & A1 & A2 & A3)]);
+    unfold auth_okb; rewrite Co.
+  - rewrite N. cbn [andb]. rewrite Lu, V, A1, A2, A3, !String.eqb_refl, profile_eqb_refl. reflexivity.
+  - rewrite P, Ck, Ls, A1, A2, A3, !String.eqb_refl, profile_eqb_refl, (mem_pair_In _ _ _ Hlog).
+    assert (clock s <=? se_expire se = true) as -> by lia. reflexivity.
+Qed.
+
+Lemma registered_okb_of s o a : registered s o a -> registered_okb s o a = true.
+Proof.
+  intros (md & L & Ek & Hin & Ho). unfold registered_okb. rewrite L, Ek, String.eqb_refl.
+  apply mem_str_In in Hin. rewrite Hin. cbn [andb].
+  destruct o; try contradiction.
+  - destruct Ho as [-> [Q|Q]]; rewrite String.eqb_refl; cbn [andb].
+    + rewrite Q. reflexivity.
+    + rewrite Q, String.eqb_refl. apply orb_true_r.
+  - rewrite Ho, String.eqb_refl. reflexivity.
+Qed.
+
 End Proofs.
+
+(* ---------- the symbolic instance evaluated by the correspondence check ---------- *)
+Lemma verify0_hash p p' : verify0 (hash0 p) p' = true <-> p = p'.
+Proof. cbn. apply String.eqb_eq. Qed.
+Lemma verify0_empty p : verify0 empty0 p = false.
+Proof. reflexivity. Qed.
+
+Lemma spec_step_of_model s o fp s' rs fp' :
+  Inv H0 s -> step0 s o fp = (s', rs, fp') -> spec_step s o (obs_of_model rs) = true.
+Proof.
+  intros I E. unfold step0 in E.
+  pose proof (step_one_reply H0 hash0 verify0 empty0 s o fp) as L1. rewrite E in L1. cbn [fst snd] in L1.
+  unfold spec_step. destruct (is_request o).
+  - destruct rs as [|r [|r2 rs2]]; try discriminate. cbn [obs_of_model o_n o_rep o_hash List.length]. cbn [Z.of_nat Pos.of_succ_nat Z.eqb Pos.eqb negb andb].
+    destruct (r_body r) as [| | |a|se|u|l] eqn:B; try reflexivity.
+    + destruct (step_assertion H0 hash0 verify0 empty0 verify0_hash verify0_empty s o fp s' [r] fp' r a I E (or_introl eq_refl) B) as (A1 & A2 & _).
+      assert (auth_okb verify0 s o a = true) as -> by (eapply authenticated_okb; first [exact A1 | exact verify0_hash | exact verify0_empty]).
+      assert (registered_okb s o a = true) as -> by (eapply registered_okb_of; first [exact A2 | exact verify0_hash | exact verify0_empty]).
+      reflexivity.
+    + pose proof (step_no_hash H0 hash0 verify0 empty0 s o fp r u) as X. rewrite E in X. cbn [fst snd] in X.
+      rewrite (X (or_introl eq_refl) B). reflexivity.
+  - destruct rs; [reflexivity|discriminate].
+Qed.
+
+(* the boolean form of the theorems, evaluated on the model's own replies, holds
+   for every history and fault plan: what the check computes on the
+   implementation's replies is false only if they differ from the model's *)
+Theorem monitor_holds_of_model : forall h s fp,
+  Inv H0 s -> spec_run s h fp (map obs_of_model (replies hash0 verify0 empty0 s h fp)) = true.
+Proof.
+  induction h as [|o h IH]; intros s fp I; [reflexivity|].
+  unfold replies. cbn [trace]. fold step0. destruct (step0 s o fp) as [[s' rs] fp'] eqn:E.
+  cbn [map snd spec_run]. rewrite E. rewrite (spec_step_of_model _ _ _ _ _ _ I E). cbn [andb].
+  apply IH. unfold step0 in E. eapply step_inv; try eassumption; [apply verify0_hash|apply verify0_empty].
+Qed.
+
+(* ---------- witnesses (non-vacuity, known finding K3) ---------- *)
+Definition ex_prof : profile := mkp "alice@example.com" "Alice" "A" "Al" "" ["users"].
+Definition ex_md1 := mkmd "https://sp1/metadata" ["https://sp1/acs"].
+Definition ex_md1b := mkmd "https://sp1/metadata" ["https://sp1/acs-b"].
+Definition ex_setup : list op :=
+  [PutUser "alice" (Some "pw1") ex_prof; PutService "a" ex_md1; PutShortcut "x" "https://sp1/metadata"].
+
+Definition has_assertion (rs : list (reply H0)) : bool :=
+  existsb (fun r => match r_body r with BAssertion _ => true | _ => false end) rs.
+Definition last_reply (h : list op) (fp : faultplan) : list (reply H0) :=
+  last (replies hash0 verify0 empty0 (init_state H0 0) h fp) [].
+
+(* assertions ARE issued: by password, by the session cookie it created, and through a shortcut *)
+Example assertion_reachable :
+  has_assertion (last_reply (ex_setup ++ [Sso (mkrq "https://sp1/metadata" "") (Password "alice" "pw1")]) []) = true /\
+  has_assertion (last_reply (ex_setup ++ [Login (Password "alice" "pw1"); Sso (mkrq "https://sp1/metadata" "https://sp1/acs") (Cookie "S0")]) []) = true /\
+  has_assertion (last_reply (ex_setup ++ [Login (Password "alice" "pw1"); Advance 3600; Launch "x" (Cookie "S0")]) []) = true.
+Proof. repeat split; vm_compute; reflexivity. Qed.
+
+(* ... and are refused one second after expiry, after the session is deleted, with a wrong
+   password, for a user without password, and when the lookup is hit by a store fault *)
+Example assertion_refused :
+  has_assertion (last_reply (ex_setup ++ [Login (Password "alice" "pw1"); Advance 3601; Launch "x" (Cookie "S0")]) []) = false /\
+  has_assertion (last_reply (ex_setup ++ [Login (Password "alice" "pw1"); DelSession "S0"; Launch "x" (Cookie "S0")]) []) = false /\
+  has_assertion (last_reply (ex_setup ++ [Sso (mkrq "https://sp1/metadata" "") (Password "alice" "pw2")]) []) = false /\
+  has_assertion (last_reply (PutUser "bob" None ex_prof :: ex_setup ++ [Sso (mkrq "https://sp1/metadata" "") (Password "bob" "")]) []) = false /\
+  has_assertion (last_reply (ex_setup ++ [Sso (mkrq "https://sp1/metadata" "") (Password "alice" "pw1")]) [NoFault; NoFault; NoFault; NoFault; IOErr]) = false.
+Proof. repeat split; vm_compute; reflexivity. Qed.
+
+(* Known finding K3: two service ids with one entity ID.  Deleting one
+   unregisters the other although it is still stored; a restart re-registers it,
+   so inserting Restart changes a later reply. *)
+Definition k3_history (restart : bool) : list op :=
+  [PutUser "alice" (Some "pw1") ex_prof; Login (Password "alice" "pw1"); PutService "a" ex_md1; PutService "b" ex_md1b;
+   DelService "a"] ++ (if restart then [Restart] else []) ++ [Sso (mkrq "https://sp1/metadata" "") (Cookie "S0")].
+Example duplicate_entity_refuted :
+  has_assertion (last_reply (k3_history false) []) = false /\ has_assertion (last_reply (k3_history true) []) = true.
+Proof. split; vm_compute; reflexivity. Qed.
